@@ -72,7 +72,7 @@ PLAN = dict(
     ],
     level_text="Finite pipelines (depth 1-3) of safe calls are run over the type zoo (incl. nested, dictionary, view, run-end, union, "
                "list-view) and over the layout mutators (sliced / padded / garbage under nulls / shuffled dictionaries / re-partitioned views / "
-               "split runs): builders' finish, From / FromIterator, make_array, new_null_array, new_empty_array, selection kernels, cast, "
+               "split runs): builders' finish, builder histories (every public append-style operation of every builder family, all sequences up to depth 2-3 on a fresh builder plus random longer ones, interleaved with finish / finish_cloned and continued use), From / FromIterator, make_array, new_null_array, new_empty_array, selection kernels, cast, "
                "arithmetic, boolean, temporal, sort, comparison, string kernels, row-format round trip, IPC file / stream round trip, CSV / JSON "
                "readers (on writer output and on generated text), record-batch operations. After every stage the returned array / batch is dumped "
                "physically and TLC judges it with the independent validator WellFormed / BatchWellFormed of ArrowLayout.tla (exact null counts at "
